@@ -51,7 +51,7 @@ Proof. intros d l. split; [apply translated_as_where_clause | apply translated_e
 
 (* non-vacuity: `where T: Trait, U: From<T>, V: Clone` for a type that uses T and V keeps the first and the third bound *)
 Example c15_translated_example :
-  length generics_fns = 12 /\
+  length generics_fns = 13 /\
   map snd (filter (keeps [VStr "T"; VStr "V"])
     [([VStr "T"], VStr "T: Trait"); ([VStr "U"; VStr "T"], VStr "U: From<T>"); ([VStr "V"], VStr "V: Clone")]) =
   [VStr "T: Trait"; VStr "V: Clone"] /\
